@@ -280,7 +280,7 @@ def run(check, repo: Repo) -> None:
                     bad_.append(unparse(par_)[:50])
             check.decide(not bad_, "C18-R2", f"_set_intensities_com[arm={arm_label}]: `{mp}` enters as a multiplicative weight (never thresholded or used as an index)", "", dmod.line(stmts[0]),
                          fail_detail=f"{bad_}: a fractional-weight mask is treated as binary in this arm — the centre of mass is no longer the mask-weighted mean and the vectorised and looped "
-                                     f"paths disagree")
+                                     f"paths disagree", definite=True)   # a positively identified use kind (comparison / index), not an idiom
     arm_infos = {}
     for arm_label, stmts in (("vectorised", vec), ("looped", lop)):
         inner = stmts
